@@ -37,7 +37,7 @@ VARIANT_SIGS = ['a()', 'a{}', 'aay', '(', '', 'a', 'ay', 'a(y)', 'z', 'a(())', '
 
 
 LENS_CASES = [('as', [['abc', 'de']]), ('as', [['abc', 'de', 'f']]), ('aas', [[['ab'], ['c']]]), ('a(s)', [[['abc'], ['d']]]),
-              ('a{ss}', [{'k': 'vv', 'l': 'w'}]), ('say', ['abc', [1, 2, 3]]), ('a(ys)', [[[1, 'ab'], [2, 'c']]]), ('ao', [['/a', '/bc']])]
+              ('a(ss)', [[['k', 'vv'], ['l', 'w']]]), ('say', ['abc', [1, 2, 3]]), ('a(ys)', [[[1, 'ab'], [2, 'c']]]), ('ao', [['/a', '/bc']])]
 
 
 def length_fields(sig, values, little):
